@@ -191,7 +191,7 @@ theorem shutdown_rxs (s : St) (op : Op) (h : Nat) (hsd : IsShutdownOf s op h) :
   · simp [step, sClose, htx, hc, senderCloseInternal]
   · simp [step, sDrop, sClose, htx, hc, senderCloseInternal]
 
-theorem shutdown_disc (s : St) (op : Op) (h : Nat) (hsd : IsShutdownOf s op h) (hri : RI s)
+theorem shutdown_disc (s : St) (op : Op) (h : Nat) (hsd : IsShutdownOf s op h) {P : Prop} (hri : RI P s)
     (r : Nat) (x : Rx) (hx : s.rxs[r]? = some x) (hl : x.live = true) (hs : x.subs ≠ []) :
     ∃ y, (step s op).1.rxs[r]? = some y ∧ y.disc = true ∧ y.live = true := by
   obtain ⟨_, tx, htx, _⟩ := id hsd
